@@ -19,6 +19,34 @@ def repo_dir():
     return os.environ.get("VERIF_REPO", "/repo")
 
 
+def _rec_hex(body):
+    return b":" + bytes(body).hex().upper().encode() + b"%02X" % ((-sum(body)) & 0xFF)
+
+
+def _rec_srec(t, body):
+    count = len(body) + 1
+    return b"S%d%02X" % (t, count) + bytes(body).hex().upper().encode() + b"%02X" % ((~(count + sum(body))) & 0xFF)
+
+
+def gen_text(fmt, nlines, k, eol):
+    """a well-formed Intel-HEX / S-record file: nlines 16-byte data records, one k-byte data record, the end
+    record; eol 'lf' | 'crlf'.  The first data record holds zeros so that the two characters COFF (which has no
+    magic number and is tried before HEX/SREC) reads as f_opthdr are '00'.  Used by corpus/ident/build.py (which
+    asks objdump what the result is) and, with the vendored sha256, by load_bases."""
+    e = b"\n" if eol == "lf" else b"\r\n"
+    lines, addr = [], 0
+    if fmt == "SREC":
+        lines.append(_rec_srec(0, b"\x00\x00"))
+    for i in range(nlines + 1):
+        m = 16 if i < nlines else k
+        data = bytes(m) if i == 0 else bytes((((i * 16 + j) * 7) & 0xFF) for j in range(m))
+        head = [(addr >> 8) & 0xFF, addr & 0xFF]
+        lines.append(_rec_hex([m] + head + [0] + list(data)) if fmt == "HEX" else _rec_srec(1, bytes(head) + data))
+        addr = (addr + 16) & 0xFFFF
+    lines.append(b":00000001FF" if fmt == "HEX" else _rec_srec(9, b"\x00\x00"))
+    return e.join(lines) + e
+
+
 def load_bases():
     """-> (list of base dicts with key 'data', notes).  Vendored truth/layout is only used when the bytes on disk
     still have the vendored sha256; a sample that changed (or is new) is an unknown byte string: truth 'any'."""
@@ -29,14 +57,18 @@ def load_bases():
         for line in f:
             b = json.loads(line)
             kind, rel = b["src"].split(":", 1)
-            path = os.path.join(repo if kind == "repo" else CORPUS, rel)
-            seen.add(os.path.realpath(path))
-            try:
-                with open(path, "rb") as g:
-                    data = g.read()
-            except OSError:
-                notes.append("base %s is missing from the tree" % b["name"])
-                continue
+            if kind == "gen":       # generated text family: recipe vendored, bytes rebuilt and checked by sha256
+                fmt, nl, k, eol = rel.split(":")
+                data = gen_text(fmt, int(nl), int(k), eol)
+            else:
+                path = os.path.join(repo if kind == "repo" else CORPUS, rel)
+                seen.add(os.path.realpath(path))
+                try:
+                    with open(path, "rb") as g:
+                        data = g.read()
+                except OSError:
+                    notes.append("base %s is missing from the tree" % b["name"])
+                    continue
             if hashlib.sha256(data).hexdigest() != b["sha256"]:
                 notes.append("base %s changed since the corpus was built: vendored truth/layout dropped" % b["name"])
                 b.update(truth="any", regions=[], kind="bin", len=len(data))
@@ -63,6 +95,7 @@ def write_bases_for_tlc(bases, path):
         for b in bases:
             d = {k: b[k] for k in ("id", "name", "len", "truth", "kind", "regions")}
             d["nf"] = sum(len(r["f"]) for r in b["regions"])
+            d["intact"] = 1 if b.get("intact_only") else 0
             f.write(json.dumps(d, separators=(",", ":")))
             f.write("\n")
 
